@@ -130,6 +130,7 @@ class Translator:
         self.canary_fns = set()
         self.virtual_dispatch = {}
         self._tu_index = {}
+        self._complete_cache = {}
         self.switch_slice = {}   # (cname, switch ordinal) -> (slice index, number of slices)
         self.switch_groups = {}
 
@@ -416,7 +417,6 @@ class Translator:
         r = c[0] if len(c) == 1 else None
         self._complete_cache[n] = r
         return r
-    _complete_cache = {}
 
     def ctype(self, tnode_or_str):
         return self.ctype_t(self.tparse(tnode_or_str))
